@@ -469,6 +469,31 @@ impl Property for C13 {
     }
     fn fixed_parts(&self, ctx: &mut Ctx) -> Vec<Violation> {
         let mut out = vec![];
+        // long top levels: 40 and 120 traced statements with function definitions scattered
+        // among them - statements run in the order they are written, however many there are
+        for (k, n) in [40usize, 120].iter().enumerate() {
+            if !ctx.shard_mine(k + 1) {
+                continue;
+            }
+            let mut prog = prelude();
+            for i in 0..*n {
+                if i % 9 == 4 {
+                    prog.push(E::Fun(format!("late{}", i), vec![], bx(E::Int(i as i32))));
+                }
+                prog.push(match i % 4 {
+                    0 => print(&format!("<{}>", i), vec![]),
+                    1 => E::Assign("x".into(), bx(call("tr", vec![E::Int(i as i32), E::Int(i as i32)]))),
+                    2 => call("tr", vec![E::Int(i as i32), E::Null]),
+                    _ => E::Block(vec![print(&format!("<{}>", i), vec![]), E::Int(0)]),
+                });
+            }
+            prog.push(print("x=~ g=~\\n", vec![var("x"), var("g")]));
+            ctx.label("long-top-level");
+            let case = || json!({"long_top_level": n, "source": render::pretty(&prog), "ir": serde_json::to_value(&prog).unwrap()});
+            if let Err(v) = judge(&prog, ctx, &case) {
+                out.push(v);
+            }
+        }
         let mut script: Option<Vec<usize>> = Some(vec![]);
         let mut i = 0usize;
         while let Some(s) = script {
